@@ -67,7 +67,8 @@ PROPS["C03"] = dict(
                  "Panacea.C03.create_requires_self_auth_proof", "Panacea.C03.proof_key_is_listed_under_authentication",
                  "Panacea.C03.not_under_authentication_rejected", "Panacea.C03.from_address_irrelevant",
                  "Panacea.C03.rejected_is_noop", "Panacea.C03.other_dids_untouched"],
-    streams=DID_STREAM, trusted=DID_TRUSTED, assumptions=DID_ASSUME,
+    streams=DID_STREAM, trusted=DID_TRUSTED,
+    assumptions=DID_ASSUME + ["known finding F18: 'over the new content' means over the document's JSON rendering, which is injective only on valid UTF-8 strings (mon.c03.utf8)"],
 )
 PROPS["C04"] = dict(
     module="Panacea.Properties.C04",
@@ -130,7 +131,8 @@ PROPS["C14"] = dict(
              "regenerated method table Generated.msgMethods (translator /verif/extract) for which messages implement legacytx.LegacyMsg",
              "that rendering distinct canonical documents gives distinct bytes (JSON is injective on {type, fields}); protobuf/Any decoding is a function of the body bytes (direct modes)",
              "DID documents embedded in DID messages are an opaque parameter docJson"],
-    assumptions=["known finding F1-DID: the theorem did_create_update_collide proves that MsgCreateDID and MsgUpdateDID with the same fields have the same legacy sign document (the property fails there); injectivity is proved within each DID message type and between deactivate and create/update only"],
+    assumptions=["known finding F17: the JSON rendering of the sign document is injective only on valid UTF-8 strings; the validators admit others (mon.c14.pair.utf8)",
+                 "known finding F1-DID: the theorem did_create_update_collide proves that MsgCreateDID and MsgUpdateDID with the same fields have the same legacy sign document (the property fails there); injectivity is proved within each DID message type and between deactivate and create/update only"],
 )
 
 PNFT_TRUSTED = [
